@@ -88,6 +88,8 @@ class Client:
         self.sol_objs = []    # the live SchedulingSolution objects
         self.models = []      # engine model snapshots matching self.solutions
         self.last_solution_obj = None
+        self.blocked = []     # spec-language exprs excluded by earlier find_another* calls
+        self.cur_model = None # snapshot of the model the solver object currently keeps
 
 
 class World:
@@ -114,6 +116,8 @@ class World:
             with warnings.catch_warnings(record=True) as wlist:
                 warnings.simplefilter("always")
                 for c in self.plan["clients"]:
+                    if c.get("dynamic"):
+                        continue
                     spec = c["spec"]
                     if isinstance(spec, str):
                         spec = self._derived_spec(spec)
@@ -217,11 +221,46 @@ class World:
                 d["steer"] = res
         return d
 
+    def _only_if(self, step):
+        cond = step.get("only_if")
+        if not cond:
+            return True
+        prev = None
+        for e in reversed(self.events):
+            if e["client"] == cond["client"]:
+                prev = e
+                break
+        if prev is None:
+            return False
+        if cond["when"] == "false_no_fault":
+            return prev.get("outcome") == "false" and not prev.get("faults")
+        if cond["when"] == "solution":
+            return prev.get("outcome") == "solution"
+        raise HarnessError(f"bad only_if {cond}")
+
     def _step(self, i, step):
         env = self.env
+        if not self._only_if(step):
+            self.events.append({"seq": i, "client": step["client"], "op": step["op"], "outcome": "skipped"})
+            self.concrete_script.append(copy.deepcopy(step))
+            return
+        if step["op"] == "examine":
+            # a fresh examiner client whose spec is derived from the history so far
+            fn = self.resolvers.get(step["args"]["derive"])
+            if fn is None:
+                raise HarnessError(f"no resolver {step['args']['derive']}")
+            spec = fn(self, step)
+            cid = step["client"]
+            self.clients[cid] = Client(cid, spec, step["args"].get("config"))
+            step = dict(step)
+            step["op"] = "solve"
+            step["_examine"] = True
         cl = self.clients[step["client"]]
         op = step["op"]
         ev = {"seq": i, "client": cl.id, "op": op}
+        if step.get("_examine"):
+            ev["examine"] = True
+            ev["examiner_constraints"] = len(cl.spec.get("constraints", []))
         if "args" in step:
             ev["args"] = step["args"]
         if op == "build":
@@ -276,6 +315,8 @@ class World:
         self.events.append(ev)
         # concretised step: symbolic steers replaced by the explicit pins that were used
         cs = copy.deepcopy(step)
+        if cs.pop("_examine", None):
+            cs["op"] = "examine"
         if step.get("env") or step.get("default"):
             cs["env"] = self._concretise(env_list, default, env.op_checks, env.resolved_steers[n_res0:])
             cs.pop("default", None)
@@ -340,7 +381,20 @@ class World:
             if step.get("if_model") and s._model is None:
                 ev["outcome"] = "skipped"
                 return
+            if s._model is not None:
+                snap = env.snapshot_model(s._model)
+                ors = []
+                for t in cl.spec["tasks"]:
+                    tid = t["id"]
+                    if f"s:{tid}" in snap:
+                        ors.append(["!=", ["s", tid], snap[f"s:{tid}"]])
+                        ors.append(["!=", ["e", tid], snap[f"e:{tid}"]])
+                    if f"x:{tid}" in snap:
+                        ors.append(["!=", ["x", tid], snap[f"x:{tid}"]])
+                ev["blocks"] = ["or"] + ors
             res = s.find_another_solution()
+            if "blocks" in ev:
+                cl.blocked.append(ev["blocks"])
             self._record_solution(cl, ev, res)
         elif op == "find_another_for":
             if step.get("if_model") and s._model is None:
@@ -353,6 +407,15 @@ class World:
                 except _z3.Z3Exception:
                     pass
             res = s.find_another_solution_for_variable(var)
+            if ev.get("var_before") is not None:
+                hn = step["args"]["var"]
+                kind, _, rest = hn.partition(":")
+                if kind in ("s", "e", "d"):
+                    ev["blocks"] = ["!=", [kind, rest], ev["var_before"]]
+                    cl.blocked.append(ev["blocks"])
+                elif kind == "H":
+                    ev["blocks"] = ["!=", ["H"], ev["var_before"]]
+                    cl.blocked.append(ev["blocks"])
             self._record_solution(cl, ev, res)
         elif op == "export_smt2":
             path = step.get("args", {}).get("path", f"{cl.id}.smt2")
